@@ -275,9 +275,11 @@ def run_engine_fixture(chk, rid="engine-fixture"):
                   "is fully proved")
     facts = Facts("fixture:engine", callgraph=False)
     # the whole-crate side analyses run on the fixture too (and are restored afterwards)
-    saved = (dict(intervals.FIELD_RANGES), set(intervals.COUNTER_FIELDS), dict(intervals.RET_RANGES))
+    saved = (dict(intervals.FIELD_RANGES), set(intervals.COUNTER_FIELDS), dict(intervals.RET_RANGES), dict(intervals.GETTERS))
     try:
         from .. import counters, fieldinv, retsum
+        intervals.GETTERS.clear()
+        intervals.GETTERS.update(retsum.getters(facts))
         intervals.COUNTER_FIELDS.clear()
         intervals.COUNTER_FIELDS.update(counters.compute(facts))
         intervals.FIELD_RANGES.clear()
@@ -317,3 +319,5 @@ def run_engine_fixture(chk, rid="engine-fixture"):
         intervals.COUNTER_FIELDS.update(saved[1])
         intervals.RET_RANGES.clear()
         intervals.RET_RANGES.update(saved[2])
+        intervals.GETTERS.clear()
+        intervals.GETTERS.update(saved[3])
